@@ -457,12 +457,15 @@ def _parse_line_v33(raw, system):
     # I,J,CKT,R,X,B,RATEA,RATEB,RATEC,GI,BI,GJ,BJ,ST,LEN,O1,F1,...,O4,F4
     #
 
+    mva = system.config.mva
     out = defaultdict(list)
     for data in raw['branch']:
         param = {
             'u': data[13],
             'bus1': data[0], 'bus2': data[1],
+            'Sn': mva,
             'r': data[3], 'x': data[4], 'b': data[5],
+            'g1': data[9], 'b1': data[10], 'g2': data[11], 'b2': data[12],
             'rate_a': data[6], 'rate_b': data[7], 'rate_c': data[8],
             'Vn1': system.Bus.get(src='Vn', idx=data[0], attr='v'),
             'Vn2': system.Bus.get(src='Vn', idx=data[1], attr='v'),
